@@ -10,6 +10,33 @@ import traceback
 from vf import core
 
 
+def _guard_check_case(mod):
+    """An exception that the library raises out of a call the check made, and that the check did not expect (did not
+    catch), is a witness against the library, not a failure of the harness: record it as a violation with the case.
+    Exceptions raised by the check's own code stay harness errors."""
+    import os
+
+    orig = mod.check_case
+    repo = os.path.realpath(core.REPO) + os.sep
+    here = os.path.dirname(os.path.realpath(__file__)) + os.sep
+
+    def guarded(case, ctx):
+        try:
+            return orig(case, ctx)
+        except Exception as e:  # noqa: BLE001  (BaseException: loop budget, watchdog - handled elsewhere)
+            frames = traceback.extract_tb(e.__traceback__)
+            files = [os.path.realpath(f.filename) for f in frames]
+            last_own = max((i for i, f in enumerate(files) if f.startswith(here)), default=-1)
+            lib = [frames[i] for i in range(last_own + 1, len(files)) if files[i].startswith(repo)]
+            if not lib:
+                raise
+            f = lib[-1]
+            ctx.violation("library.exception", f"{type(e).__name__}: {str(e)[:300]} - raised through {os.path.basename(f.filename)}:{f.lineno} "
+                          f"({f.name}), an exception this check does not expect from that call", case)
+
+    mod.check_case = guarded
+
+
 def main():
     prop, shard_path, out_path = sys.argv[1:4]
     faulthandler.enable()
@@ -18,6 +45,7 @@ def main():
     core.load_library()
     mod = importlib.import_module(f"vf.props.{prop.lower()}")
     ctx = core.Ctx(prop, shard["tier"], shard["seed"], shard)
+    _guard_check_case(mod)
     status = "done"
     err = None
     try:
